@@ -21,8 +21,9 @@ def _is_offset_member(e):
 
 
 class Frames:
-    def __init__(self, fn):
+    def __init__(self, fn, P=None):
         self.fn = fn
+        self.P = P
         self.offs = set()
         for ev in fn.stores():
             lhs, rhs, o = ev.store_parts()
@@ -179,6 +180,23 @@ class Frames:
             elif k and o not in ('+=', '-=', 'pre++', 'post++', 'pre--', 'post--'):
                 st[k] = frozenset(['?'])
         elif ev.k == 'call':
+            # a helper of the same unit that itself adds (subtracts) the offset to a parameter it never assigns
+            # expects an api (file) id there
+            g = self.P.functions.get(ev.callee) if (self.P is not None and ev.callee) else None
+            if g is not None and g.file == self.fn.file and g is not self.fn:
+                if not hasattr(g, '_frames_fixed'):
+                    g._frames_fixed = Frames(g).fixed
+                for i_, a in enumerate(ev.args):
+                    if i_ >= len(g.params):
+                        break
+                    want = g._frames_fixed.get(g.params[i_]['name'])
+                    if not want or len(want) != 1:
+                        continue
+                    fa = self.frame(a, st)
+                    if fa and not (fa & want):
+                        self.report(ev.where(), '%s() treats its parameter %s as a%s id (it %s the offset), but %s is a%s id here' %
+                                    (g.name, g.params[i_]['name'], 'n api' if API in want else ' file', 'adds' if API in want else 'subtracts',
+                                     show(a)[:40], 'n api' if API in fa else ' file'), ('arg', show(ev.e)))
             # out-parameters: &x passed to a callee is no longer known
             for a in ev.args:
                 a0 = strip_casts(a)
@@ -248,7 +266,7 @@ def frames_rule(ctx, P, rule, files=('src/reader.c', 'src/core.c'), kinds=('samp
     for fn in P.all_functions():
         if fn.file not in files or kind_of(fn) not in kinds:
             continue
-        F = Frames(fn)
+        F = Frames(fn, P)
         if not F.relevant():
             continue
         n += 1
